@@ -384,19 +384,14 @@ bool StepExtended(ScriptExecutionEnvironment& env, CScript::const_iterator& pc, 
         return true;
 
     case OP_2MUL:
+    case OP_2DIV:
         // (in -- out)
         if (stack.size() < 1) return set_error(serror, SCRIPT_ERR_INVALID_STACK_OPERATION);
         vch1 = stacktop(-1);
         {
-            // multiply by 2 = left-shift one bit
-            uint16_t carry = 0;
-            for (size_t i = 0; i < vch1.size(); ++i) {
-                uint16_t v = vch1[i];
-                v = (v << 1) | carry;
-                carry = v >> 8;
-                vch1[i] = v & 0xff;
-            }
-            if (carry) vch1.push_back(carry);
+            // script numbers are sign-magnitude: do the arithmetic on the value, not on the raw bytes
+            CScriptNum num(vch1, env.fRequireMinimal);
+            vch1 = CScriptNum(env.opcode == OP_2MUL ? num.GetInt64() * 2 : num.GetInt64() / 2).getvch();
         }
         popstack(stack);
         pushstack(stack, vch1);
